@@ -11,7 +11,15 @@
 // Owned guards added by Piotr Kołaczkowski
 
 use std::ops::Drop;
+#[cfg(not(any(fclones_verif_loom, fclones_verif_shuttle)))]
 use std::sync::{Arc, Condvar, Mutex};
+
+#[cfg(fclones_verif_loom)]
+use loom::sync::{Condvar, Mutex};
+#[cfg(fclones_verif_shuttle)]
+use shuttle::sync::{Condvar, Mutex};
+#[cfg(any(fclones_verif_loom, fclones_verif_shuttle))]
+use std::sync::Arc;
 
 /// A counting, blocking, semaphore.
 ///
@@ -93,6 +101,19 @@ impl Semaphore {
     pub fn access_owned(self: Arc<Self>) -> OwnedSemaphoreGuard {
         self.acquire();
         OwnedSemaphoreGuard { sem: self }
+    }
+}
+
+#[cfg(any(fclones_verif_loom, fclones_verif_shuttle))]
+impl Semaphore {
+    /// Wakes every waiter without releasing a permit (models spurious wake-ups).
+    pub fn verif_wake_all(&self) {
+        self.cvar.notify_all();
+    }
+
+    /// Returns the current permit count.
+    pub fn verif_available(&self) -> isize {
+        *self.lock.lock().unwrap()
     }
 }
 
